@@ -1406,12 +1406,43 @@ fn parse_vars(exprs: &[&Vec<SExpr>], _lsp_hints: &mut LspHints) -> Result<HashMa
                 .definition_locations
                 .variable
                 .insert(var_name.to_owned(), var_name_expr.span());
+            // Variables are substituted lazily at their use sites. A variable that refers to
+            // itself, directly or through other variables, would make that substitution (or a
+            // later `concat`) recurse forever.
+            if var_refers_to(&var_expr, var_name, &vars, vars.len() + 1) {
+                bail_expr!(
+                    var_name_expr,
+                    "variable {} is defined in terms of itself",
+                    var_name
+                );
+            }
             if vars.insert(var_name.into(), var_expr).is_some() {
                 bail_expr!(var_name_expr, "duplicate variable name: {}", var_name);
             }
         }
     }
     Ok(vars)
+}
+
+/// Returns true if `expr` mentions `$target`, following references to other variables
+/// at most `depth` levels deep.
+fn var_refers_to(
+    expr: &SExpr,
+    target: &str,
+    vars: &HashMap<String, SExpr>,
+    depth: usize,
+) -> bool {
+    match expr {
+        SExpr::Atom(a) => match a.t.strip_prefix('$') {
+            Some(varname) if varname == target => true,
+            Some(varname) if depth > 0 => vars
+                .get(varname)
+                .map(|v| var_refers_to(v, target, vars, depth - 1))
+                .unwrap_or(false),
+            _ => false,
+        },
+        SExpr::List(l) => l.t.iter().any(|e| var_refers_to(e, target, vars, depth)),
+    }
 }
 
 fn parse_list_var(expr: &Spanned<Vec<SExpr>>, vars: &HashMap<String, SExpr>) -> SExpr {
